@@ -209,8 +209,9 @@ class CodecStream:
                     a["props"] = rand_props(rng, 8)
                 case.append("subscribe " + " ".join(f"{k}={v}" for k, v in a.items()))
             elif r < 0.9:
-                fl = [hx(rng.choice(["a/#", "+/b", "t/é", "x"])) for _ in range(rng.randint(1, 3))]
-                a = dict(proto=proto, mid=1, filters=",".join(fl))
+                # (an empty list: the protocol has no UNSUBSCRIBE without a topic filter - it must be refused, not written)
+                fl = [hx(rng.choice(["a/#", "+/b", "t/é", "x"])) for _ in range(rng.choice([0, 1, 1, 2, 2, 3, 3, 3]))]
+                a = dict(proto=proto, mid=1, filters=",".join(fl) or "-")
                 if proto == 5:
                     a["props"] = rand_props(rng, 10)
                 case.append("unsubscribe " + " ".join(f"{k}={v}" for k, v in a.items()))
@@ -312,7 +313,7 @@ class CodecStream:
                     obs.append(show_bytes(bytes(s.wire[n0:]), proto))
                 elif t[0] == "unsubscribe":
                     w, c, s, n0 = self._connected(proto)
-                    c.unsubscribe([unhx(f).decode() for f in a["filters"].split(",")],
+                    c.unsubscribe([unhx(f).decode() for f in a["filters"].split(",") if f != "-"],
                                   properties=mk_props(PacketTypes.UNSUBSCRIBE, a.get("props", "-")) if proto == 5 else None)
                     obs.append(show_bytes(bytes(s.wire[n0:]), proto))
                 elif t[0] == "disconnect":
@@ -405,7 +406,7 @@ class CodecStream:
                 if proto == 5:
                     checks.append(("props", same_props(d.get("props"), a.get("props", "-"), 8)))
             elif t[0] == "unsubscribe":
-                checks = [("type", d["type"] == "UNSUBSCRIBE"), ("mid", d["mid"] == 1), ("filters", d["filters"] == [unhx(f) for f in a["filters"].split(",")])]
+                checks = [("type", d["type"] == "UNSUBSCRIBE"), ("mid", d["mid"] == 1), ("filters", d["filters"] == [unhx(f) for f in a["filters"].split(",") if f != "-"])]
                 if proto == 5:
                     checks.append(("props", same_props(d.get("props"), a.get("props", "-"), 10)))
             else:
